@@ -80,7 +80,7 @@ func encodeLegacy(v *pb.MeshSilence) []byte {
 
 func TestConvergence(t *testing.T) {
 	run := vf.Cur()
-	sub := run.Sub("delivery-plans", "2-4 real silence stores (each with a silencer) in one virtual-time bubble; a pool of versions of 1-4 ids with pairwise distinct update times (created/edited/expired through the real API on the replicas themselves, plus hand-built peer versions incl. the old single-matcher-list encoding, multiple matcher sets, and versions already past their retention); every replica receives versions in its own order, duplicated, singly, in batches and as another replica's full state (MarshalBinary), interleaved with local edits and clock advances; checks after every step: Query == reference last-writer-wins map of what the replica was given, stored update time per id never decreases, versions past retention change nothing and cause no gossip, re-delivery changes neither Query nor Version() nor the broadcast count, first-time merges of small messages are re-broadcast once per merged entry and oversized ones never, Mutes == brute force, index invariants; at the end everything is delivered everywhere and all replicas must be equal; non-trivial = >=1 conflicting pair of versions of one id was delivered in both orders; distinct by (seed)", 100)
+	sub := run.Sub("delivery-plans", "2-4 real silence stores (each with a silencer) in one virtual-time bubble; a pool of versions of 1-4 ids with pairwise distinct update times (created/edited/expired through the real API on the replicas themselves, plus hand-built peer versions incl. the old single-matcher-list encoding, multiple matcher sets, versions already past their retention, and versions stamped up to 4 min ahead of the local clock, which local edits must not replace); every replica receives versions in its own order, duplicated, singly, in batches and as another replica's full state (MarshalBinary), interleaved with local edits and clock advances; checks after every step: Query == reference last-writer-wins map of what the replica was given, stored update time per id never decreases, versions past retention change nothing and cause no gossip, re-delivery changes neither Query nor Version() nor the broadcast count, first-time merges of small messages are re-broadcast once per merged entry and oversized ones never, Mutes == brute force, index invariants; at the end everything is delivered everywhere and all replicas must be equal; non-trivial = >=1 conflicting pair of versions of one id was delivered in both orders; distinct by (seed)", 100)
 	n := run.N(500, 50000)
 	vf.Parallel(t, n, 16, func(t *testing.T, i int) {
 		r := sub.Rand(i)
@@ -275,6 +275,13 @@ func TestConvergence(t *testing.T) {
 						}
 					}
 					drainLocal(rp)
+					if cur.UpdatedAt.AsTime().After(now) {
+						sub.Count("local_edits_of_a_version_stamped_ahead_of_the_local_clock", 1)
+					}
+					// a local edit is one more update of the id: the replica still holds the newest version it was given
+					if !check(rp) {
+						return
+					}
 				case op < 37: // hand-built peer version of an id in the pool (or a new id)
 					upd++
 					var sil *pb.Silence
@@ -288,7 +295,13 @@ func TestConvergence(t *testing.T) {
 							sil.Annotations = map[string]string{"k": fmt.Sprint(upd)}
 						}
 					}
-					sil.UpdatedAt = timestamppb.New(now.Add(-time.Duration(r.Intn(300))*time.Second + time.Duration(upd)*time.Microsecond))
+					skew := -time.Duration(r.Intn(300)) * time.Second
+					if r.Intn(4) == 0 {
+						// written by a peer whose clock runs ahead: newer than anything a local edit of the next
+						// minutes will be stamped with
+						skew = time.Duration(1+r.Intn(240)) * time.Second
+					}
+					sil.UpdatedAt = timestamppb.New(now.Add(skew + time.Duration(upd)*time.Microsecond))
 					v := version{ms: silh.Mesh(sil, retention), legacy: len(sil.MatcherSets) == 1 && r.Intn(3) == 0}
 					if r.Intn(8) == 0 { // already past its retention when produced
 						v.ms.Silence.EndsAt = timestamppb.New(now.Add(-3 * time.Hour))
